@@ -3,7 +3,7 @@
 from __future__ import annotations
 
 import warnings
-from typing import Callable, Optional, Tuple, Union
+from typing import Callable, List, Optional, Tuple, Union
 
 import torch
 from jaxtyping import Float
@@ -43,7 +43,10 @@ class CholLinearOperator(RootLinearOperator):
                 chol = TriangularLinearOperator(chol, upper=True)
             else:
                 raise ValueError("chol must be either lower or upper triangular")
-        super().__init__(chol)
+        # Register `upper` as a constructor argument, so that the operator keeps its orientation
+        # when it is re-built from its representation (as every differentiable function does)
+        LinearOperator.__init__(self, chol, upper=upper)
+        self.root = chol
         self.upper = upper
 
     @property
@@ -62,7 +65,24 @@ class CholLinearOperator(RootLinearOperator):
     @cached
     def _diagonal(self: Float[LinearOperator, "... M N"]) -> Float[torch.Tensor, "... N"]:
         # TODO: Can we be smarter here?
-        return (self.root.to_dense() ** 2).sum(-1)
+        # (R^T R)_ii sums over the rows of R, (L L^T)_ii over the columns of L
+        return (self.root.to_dense() ** 2).sum(-2 if self.upper else -1)
+
+    def _matmul(
+        self: Float[LinearOperator, "*batch M N"],
+        rhs: Union[Float[torch.Tensor, "*batch2 N C"], Float[torch.Tensor, "*batch2 N"]],
+    ) -> Union[Float[torch.Tensor, "... M C"], Float[torch.Tensor, "... M"]]:
+        if self.upper:
+            # R^T R rhs
+            return self.root._t_matmul(self.root._matmul(rhs))
+        return super()._matmul(rhs)
+
+    def _expand_batch(
+        self: Float[LinearOperator, "... M N"], batch_shape: Union[torch.Size, List[int]]
+    ) -> Float[LinearOperator, "... M N"]:
+        if len(batch_shape) == 0:
+            return self
+        return self.__class__(self.root._expand_batch(batch_shape), upper=self.upper)
 
     def _solve(
         self: Float[LinearOperator, "... N N"],
